@@ -18,6 +18,11 @@ legs
            DID on every fifth row, with traffic
   random   Hypothesis over all of it, including omitted options (defaults),
            acm, traffic shapes and SNEP lengths
+  lookups  small and asymmetric link MIUs; on BOTH sides several application
+           threads call llc.resolve() at link-up for names of varied length
+           (bound on the peer or unknown) in addition to the datagram
+           traffic, so that service discovery responses and requests share
+           SNL PDUs (also inside AGF PDUs) that must fit the receiver's MIU
 
 oracles
   activation-failed   both sides must get their controller (perfect medium)
@@ -129,7 +134,8 @@ def ndef_octets(n):
 def execute(case):
     did = case.get("did")
     o = {"snap": {}, "ui": {"i": [], "t": []}, "rx": {"i": [], "t": []},
-         "notes": [], "snep": None, "put": [], "exc": {}, "result": {}}
+         "notes": [], "snep": None, "put": [], "exc": {}, "result": {},
+         "resolved": {"i": [], "t": []}}
     opts = {}
     for side in ("i", "t"):
         opts[side] = {k: v for k, v in case[side].items()
@@ -218,6 +224,11 @@ def execute(case):
                                                   timeout=2.0)
             return fn
 
+        def resolver(side, llc, name):
+            def fn():
+                o["resolved"][side].append([name, llc.resolve(name)])
+            return fn
+
         def receiver(side):
             def fn():
                 try:
@@ -246,6 +257,13 @@ def execute(case):
                 with cv:
                     running["n"] += 1
                     cv.notify_all()
+                # name lookups outstanding while the traffic runs: started
+                # first, so that they are pending in the first collect cycles
+                for k, name in enumerate(case.get("lookups", {}).get(side, [])):
+                    with cv:
+                        running["n"] += 1
+                    s.spawn(guarded(resolver(side, llc, name)),
+                            "sdp-%s%d" % (side, k))
                 s.spawn(guarded(sender(side, llc)), "tx-" + side)
                 s.spawn(receiver(side), "rx-" + side)
             return fn
@@ -339,6 +357,18 @@ def pdu_infos(raw):
     return out
 
 
+def snl_shapes(raw):
+    """[(responses, requests)] of every SNL PDU in a top-level PDU (the PDU
+    itself or aggregated in an AGF)"""
+    try:
+        p = ref.decode(raw)
+    except ref.RefReject:
+        return []
+    return [(len(q["sdres"]), len(q["sdreq"]))
+            for q in (p["pdus"] if p["type"] == "AGF" else [p])
+            if q["type"] == "SNL"]
+
+
 def judge(case, ctx):
     did = case.get("did")
     base = "did" if did is not None else "nodid"
@@ -373,8 +403,8 @@ def judge(case, ctx):
         ctx.label("brs=%d" % brs, "lri=%d" % lri, "lrt=%d" % lrt)
         differ = (eff(case, "i", "miu") != eff(case, "t", "miu") or lri != lrt
                   or eff(case, "i", "lto") != eff(case, "t", "lto"))
-        if differ or brs > 0:
-            ctx.nontrivial()
+        if (differ or brs > 0) and not case.get("lookups_leg"):
+            ctx.nontrivial()        # (the lookups leg has its own rule)
 
         # --- LLCP parameters
         for a in ("i", "t"):
@@ -435,7 +465,8 @@ def judge(case, ctx):
         buf = {"I>T": b"", "T>I": b""}
         limit_lr = {"I>T": dp.LR[lrt], "T>I": dp.LR[lri]}
         limit_miu = {"I>T": eff(case, T, "miu"), "T>I": eff(case, I, "miu")}
-        seen = {"chain": 0, "dep": 0, "pdu": 0, "at-miu": 0, "agf": 0}
+        seen = {"chain": 0, "dep": 0, "pdu": 0, "at-miu": 0, "agf": 0,
+                "snl": 0, "snl-res+req": 0, "snl-near-miu": 0}
         for e in o["log"]:
             f = dp.parse(e["brty"], e["data"])
             if f["code"] in ("ATR", "PSL"):
@@ -472,8 +503,13 @@ def judge(case, ctx):
                 buf[d] += f["inf"]
                 if f["kind"] == "INF":
                     raw, buf[d] = buf[d], b""
+                    for nres, nreq in snl_shapes(raw):
+                        seen["snl"] += 1
+                        seen["snl-res+req"] += bool(nres and nreq)
                     for name, n in pdu_infos(raw):
                         seen["pdu"] += 1
+                        seen["snl-near-miu"] += name.endswith("SNL") and \
+                            limit_miu[d] - 40 <= n <= limit_miu[d]
                         seen["agf"] += name.startswith("AGF/")
                         seen["at-miu"] += n == limit_miu[d]
                         if n > limit_miu[d]:
@@ -516,9 +552,16 @@ def judge(case, ctx):
         if bad:
             flag(ctx, base, Violation("announce", "; ".join(bad)))
 
-        for k in ("chain", "at-miu", "agf"):
+        for k in ("chain", "at-miu", "agf", "snl-res+req", "snl-near-miu"):
             if seen[k]:
                 ctx.label("seen:" + k)
+        if case.get("lookups"):
+            # the lookups leg: responses and requests shared an SNL PDU
+            nlook = sum(len(v) for v in case["lookups"].values())
+            if len(o["resolved"]["i"]) + len(o["resolved"]["t"]) < nlook:
+                ctx.label("lookups-unfinished")
+            if seen["snl-res+req"] and case.get("lookups_leg"):
+                ctx.nontrivial()
         if o["snep"]:
             ctx.label("snep-put-ok")
         if not o["traffic_done"]:
@@ -532,6 +575,9 @@ def judge(case, ctx):
                   "chained": seen["chain"], "pdus-at-miu": seen["at-miu"],
                   "ui": {x: [list(y) for y in o["ui"][x]] for x in o["ui"]},
                   "rx": o["rx"], "snep": o["snep"], "put": o["put"],
+                  "snl": [seen["snl"], seen["snl-res+req"],
+                          seen["snl-near-miu"]],
+                  "resolved": {x: len(o["resolved"][x]) for x in ("i", "t")},
                   "vtime": round(o["vtime"], 3)})
     except Excluded:
         return
@@ -585,6 +631,36 @@ def st_case(draw):
                                   st.integers(1, 14))),
             "svc": svc, "ui": ui, "snep": snep,
             "seed": draw(st.integers(0, 0xFFFF))}
+
+
+SMALL_MIUS = [128, 128, 129, 131, 140, 160, 200, 248]
+
+
+@st.composite
+def st_lookup_case(draw):
+    """st_case with small, asymmetric MIUs and name lookups on both sides"""
+    case = draw(st_case())
+    case["i"]["miu"] = draw(st.one_of(st.sampled_from(SMALL_MIUS),
+                                      st.sampled_from(MIUS)))
+    case["t"]["miu"] = draw(st.one_of(st.sampled_from(SMALL_MIUS),
+                                      st.sampled_from(SMALL_MIUS),
+                                      st.sampled_from(MIUS)))
+    if draw(st.booleans()):
+        case["snep"] = None         # keep most of the air time for SNL PDUs
+    lookups = {}
+    for side in ("i", "t"):
+        known = ["urn:nfc:sn:" + n for n in case["svc"][other(side)]]
+        name = st.one_of(
+            st.tuples(st.integers(0, 47), st.integers(0, 25)).map(
+                lambda t: "urn:nfc:sn:" + "abcdefghijklmnopqrstuvwxyz"[
+                    t[1]] * t[0]),
+            st.tuples(st.integers(1, 60), st.integers(0, 25)).map(
+                lambda t: "nopqrstuvwxyzabcdefghijklm"[t[1]] * t[0]),
+            *([st.sampled_from(known)] if known else []))
+        lookups[side] = draw(st.lists(name, min_size=1, max_size=9))
+    case["lookups"] = lookups
+    case["lookups_leg"] = True
+    return case
 
 
 # ---------------------------------------------------------------- the grid
@@ -698,4 +774,16 @@ LEGS = [
              "128..2175, acm, roles fixed/auto, DID none/1..14, bound "
              "services, <= 6 datagrams around the peer's MIU, SNEP put of "
              "0..3000 bytes; same non-trivial rule."),
+    Leg("lookups", run=run, gen=lambda tier: st_lookup_case(), quick=400,
+        thorough=8000, shards_quick=8, shards_thorough=16, nt_floor=0.3,
+        rule="the random leg's cases with link MIUs mostly 128..248 and "
+             "asymmetric, and on both sides 1..9 application threads that "
+             "call llc.resolve() at link-up (service names bound on the peer, "
+             "unknown urn:nfc:sn: names of 11..58 characters, unknown short "
+             "and long names of 1..60 characters) while the datagram / SNEP "
+             "traffic runs, so that lookups are outstanding in both "
+             "directions in the same collect cycles; all oracles as before, "
+             "in particular every SNL PDU and every AGF PDU <= the "
+             "receiver's MIU; non-trivial = at least one SNL PDU on the air "
+             "carried responses and requests together."),
 ]
